@@ -830,11 +830,13 @@ class CircuitTemplate(AbstractBaseTemplate):
 
         # create final set of vectorized edges
         edges = []
+        applied_edge_values = set()
         for (source, target, template, _), values in edge_col.items():
 
             # update edge template default values with passed edge values,
             if (source, target) in edge_values:
                 values.update(edge_values[(source, target)])
+                applied_edge_values.add((source, target))
             weight = values.pop("weight", 1.)
 
             # get delay
@@ -919,6 +921,12 @@ class CircuitTemplate(AbstractBaseTemplate):
                 edge_dict = self._prepare_edge_for_circuit(weight=weight, delay=delay, spread=spread,
                                                            source_idx=edge_idx, target_idx=target_idx)
                 edges.append((edge_ir.output, target, edge_dict))
+
+        # values that were passed for an edge that does not exist (under the names used here) must not vanish silently
+        for key in edge_values:
+            if key not in applied_edge_values:
+                warn(PyRatesWarning(f'The values passed for the edge {key} were not applied: no (group of) edges with '
+                                    f'this source and target variable exists in the translated network.'))
 
         # process PopulationTemplate instances and their Connectivity objects
         if self.populations or self.connections:
